@@ -39,6 +39,19 @@ func (p *Path) waitUntil(cond func() bool, what string, pos token.Pos) {
 	p.fatal("all goroutines are asleep - deadlock! (" + what + " at " + p.posStr(pos) + ")")
 }
 
+// suspendSignal unwinds the interpreter (without running the target's deferred
+// calls) to the enclosing verifRunUntilBlocked when the code it runs reaches a
+// channel operation that cannot proceed. The suspended activation is a thread
+// parked forever at that operation: every mutex it holds stays held.
+type suspendSignal struct{ what string }
+
+func (p *Path) wouldBlock(what string) {
+	if p.suspendable > 0 {
+		panic(suspendSignal{what})
+	}
+	p.abortf(abortUnsupported, "%s", what)
+}
+
 func (p *Path) chanSend(cv Value, v Value) {
 	ch, ok := cv.(*ChanV)
 	if !ok {
@@ -54,7 +67,7 @@ func (p *Path) chanSend(cv Value, v Value) {
 		ch.Buf = append(ch.Buf, copyVal(v))
 		return
 	}
-	p.abortf(abortUnsupported, "channel send would block (no runnable receiver)")
+	p.wouldBlock("channel send would block (no runnable receiver)")
 }
 
 func (p *Path) chanRecv(cv Value, commaOk bool, instr *ssa.UnOp) Value {
@@ -80,7 +93,7 @@ func (p *Path) chanRecv(cv Value, commaOk bool, instr *ssa.UnOp) Value {
 		}
 		return z
 	}
-	p.abortf(abortUnsupported, "channel receive would block (no runnable sender) at %s", p.posStr(instr.Pos()))
+	p.wouldBlock("channel receive would block (no runnable sender) at " + p.posStr(instr.Pos()))
 	return nil
 }
 
@@ -139,6 +152,6 @@ func (p *Path) doSelect(fr *frame, instr *ssa.Select) Value {
 	if !instr.Blocking {
 		return mk(-1, false, nil)
 	}
-	p.abortf(abortUnsupported, "blocking select with no ready case at %s", p.posStr(instr.Pos()))
+	p.wouldBlock("blocking select with no ready case at " + p.posStr(instr.Pos()))
 	return nil
 }
